@@ -56,6 +56,21 @@ where
     }
 }
 
+#[cfg(gluon_verif)]
+impl<T> Lazy<T> {
+    /// `Ok(Some(value))` for an evaluated lazy, `Ok(None)` while it is being evaluated (or failed),
+    /// `Err(thunk)` before (unrooted copies)
+    pub(crate) unsafe fn verif_value(&self) -> crate::real_std::result::Result<Option<Value>, Value> {
+        unsafe {
+            match *self.value.lock().unwrap() {
+                Lazy_::Value(ref value) => Ok(Some(value.clone_unrooted())),
+                Lazy_::Thunk(ref value) => Err(value.clone_unrooted()),
+                _ => Ok(None),
+            }
+        }
+    }
+}
+
 impl<T> fmt::Debug for Lazy<T> {
     fn fmt(&self, f: &mut fmt::Formatter) -> fmt::Result {
         write!(f, "Lazy({:?})", *self.value.lock().unwrap())
